@@ -15,6 +15,9 @@ type knobs struct {
 	reusePct           int // BEGIN on the same context object
 	runs               int
 	zeroAllocs         bool // MaxPassAllocations = 0 (outside the documented domain)
+	granPct            int  // the block list has vam's granularity handler and a granularity 2..65536
+	mixedKindPct       int  // allocation kinds drawn from 1..5 instead of mostly buffers
+	failPct            int  // a pass is preceded by CF (some of its commits are refused)
 }
 
 func profileKnobs(r *rng, profile string) knobs {
@@ -36,6 +39,10 @@ func profileKnobs(r *rng, profile string) knobs {
 		k.sentinelPct = 100
 	case "zero":
 		k.zeroAllocs = true
+	case "gran": // vam's handler, granularities 2..65536, kinds 1..5 mixed
+		k.granPct, k.mixedKindPct = 100, 70
+	case "commitfail": // the block list refuses some commits; half of the histories with granularity
+		k.failPct, k.granPct, k.mixedKindPct, k.nonCopyPct = 70, 50, 50, 10
 	}
 	return k
 }
@@ -44,7 +51,28 @@ func genCfg(r *rng, profile string) cfg {
 	k := profileKnobs(r, profile)
 	n := r.rangeIncl(k.blocksLo, k.blocksHi)
 	sizes := []int{256, 1000, 1024, 4096, 4096, 65536, 1 << 20}
-	c := cfg{sentinel: r.chance(k.sentinelPct)}
+	c := cfg{sentinel: r.chance(k.sentinelPct), gran: 1, handler: "fake"}
+	if k.granPct > 0 && r.chance(k.granPct) {
+		// (the older profiles have granPct = 0 and draw nothing here: their traces are unchanged)
+		c.handler = "vam"
+		switch r.intn(4) {
+		case 0:
+			c.gran = 1 << uint(r.rangeIncl(1, 8)) // 2..256: the handler rounds optimal images too
+		case 1:
+			c.gran = 1 << uint(r.rangeIncl(9, 12))
+		case 2:
+			c.gran = 1 << uint(r.rangeIncl(1, 16))
+		default:
+			c.gran = []int{64, 256, 512, 1024, 4096, 65536}[r.intn(6)]
+		}
+		if r.chance(8) {
+			c.handler = "fake" // a granularity the accept-all handler ignores
+		}
+		if r.chance(60) {
+			// blocks of a few pages
+			sizes = []int{c.gran * 2, c.gran * 3, c.gran * 4, c.gran * 8, c.gran*5 + 100, c.gran * 16, 1 << 20}
+		}
+	}
 	base := sizes[r.intn(len(sizes))]
 	for i := 0; i < n; i++ {
 		s := base
@@ -112,6 +140,9 @@ func (h *hist) genUserAlloc(r *rng) {
 	b := w.blocks[r.intn(len(w.blocks))]
 	kind := 2
 	if r.chance(20) {
+		kind = r.rangeIncl(1, 5)
+	}
+	if h.mixedKindPct > 0 && r.chance(h.mixedKindPct) {
 		kind = r.rangeIncl(1, 5)
 	}
 	h.op("A %d %d %d %d %d", b.id, genSize(r, b.size), genAlign(r), kind, r.rangeIncl(0, 999))
@@ -194,6 +225,7 @@ func (h *hist) genLimits(r *rng, k knobs) (int, int) {
 func genHistory(h *hist, r *rng, profile string, ops int) {
 	k := profileKnobs(r, profile)
 	w := h.w
+	h.mixedKindPct = k.mixedKindPct
 	budget := r.rangeIncl(ops/2, ops)
 	used := func() int { return h.step }
 	// phase 1: fill the blocks
@@ -211,6 +243,9 @@ func genHistory(h *hist, r *rng, profile string, ops int) {
 		}
 		kind := 2
 		if r.chance(15) {
+			kind = r.rangeIncl(1, 5)
+		}
+		if k.mixedKindPct > 0 && r.chance(k.mixedKindPct) {
 			kind = r.rangeIncl(1, 5)
 		}
 		h.op("A %d %d %d %d %d", b.id, genSize(r, b.size), genAlign(r), kind, r.rangeIncl(0, 999))
@@ -244,6 +279,26 @@ func genHistory(h *hist, r *rng, profile string, ops int) {
 			maxPasses = 100000
 		}
 		for p := 0; p < maxPasses && (used() < budget+10 || profile == "copy"); p++ {
+			if k.failPct > 0 && r.chance(k.failPct) {
+				line := "CF"
+				switch r.intn(4) {
+				case 0: // the first attempts
+					for i, n := 0, r.rangeIncl(1, 3); i < n; i++ {
+						line += fmt.Sprintf(" %d", i)
+					}
+				case 1: // every attempt
+					for i := 0; i < 40; i++ {
+						line += fmt.Sprintf(" %d", i)
+					}
+				default:
+					for i := 0; i < 12; i++ {
+						if r.chance(35) {
+							line += fmt.Sprintf(" %d", i)
+						}
+					}
+				}
+				h.op("%s", line)
+			}
 			h.op("PASS")
 			if w.dead {
 				return
